@@ -1,4 +1,4 @@
-\* core alphabet of asl (19 templates), <= 4 occurrences
+\* core alphabet of asl (14 templates), <= 4 occurrences
 CONSTANTS Fixed = {} Prog = "asl" MaxOcc = 4 Alphabet = "core"
 SPECIFICATION SpecMC
 INVARIANTS ScanIsFold DeviationsAreNamed PlaceNeverMatters EnvBeforeArgv ErrorIsFinal
